@@ -173,7 +173,8 @@ def space(tier):
     for p in ps.programs(kctl, 2, ctl=True):
         if p not in core:
             out.append(('ctl', p))
-    light = {n for n in features.FEATURES if n.startswith(('comp-in-', 'plain-comp-in-', 'self-rhs-'))}
+    # features with two or more iteration oracles multiply the execution tree by 9 or more: skeletons one node smaller
+    light = {n for n, f in features.FEATURES.items() if n.startswith(('comp-in-', 'plain-comp-in-', 'self-rhs-')) or sum(l.count('_it(') for l in f['instr']) >= 2}
     for p in feature_programs(kfeat, names=set(features.FEATURES) - light):
         out.append(('feat', p))
     # the expression-position families are about the construct itself: skeletons one node smaller
@@ -194,7 +195,12 @@ def unit(arg):
         part.count('evaluations')
         part.count('programs')
         part.count('programs_' + origin)
-        vs = nc.check_program(prog, want=(prop,), part=part)
+        try:
+            vs = nc.check_program(prog, want=(prop,), part=part)
+        except ps.TreeTooLarge:
+            # more executions than the per-program cap: the program is skipped and reported as a cap, never silently
+            part.count('programs_skipped_execution_tree_too_large')
+            continue
         coarse = coarse_cause(prog)
         for p, sig, what, ctx in vs:
             if p != prop:
@@ -245,6 +251,8 @@ def run_names(ctx, prop):
         'checked': {k: int(v) for k, v in c.items() if k.startswith('c0')},
         'skipped_crashes_counted_for_C08': {k: int(v) for k, v in c.items() if k.endswith('_crashes')},
     })
+    if c['programs_skipped_execution_tree_too_large']:
+        ctx.caps_hit.append('%d programs have more than 20000 executions (two iteration oracles inside nested loops) and were skipped' % c['programs_skipped_execution_tree_too_large'])
     ctx.assumptions += [
         'CPython %s executing the shadow-instrumented rendering is the ground truth; the shadow of a variable is bound by the same kind of construct in the same scope' % '3.12',
         'bounds: statements per program, nesting depth 2 (3 for k<=4 on thorough), two variables a/b plus f, loops at most 2 trips, at most one feature per program',
